@@ -236,7 +236,14 @@ def check_durability(rec, prop):
     use_memmap = scn.get("storage", "mem") != "mem" or scn.get("n_process", 1) != 1
     if n_rows(scn) == 0:
         return v  # zero-length arrays cannot be memory-mapped and hold no values
+    recorded = set()
+    for idx, c in enumerate(rec.log.calls):
+        if (c["has_traces"] or c["has_stats"]) and any(e["call"] == idx for e in rec.log.entries):
+            recorded.add(c["chain"])
     for name, d in (rec.durable or {}).items():
+        chain = int(name.rsplit(":", 1)[1])
+        if use_memmap and d.get("is_memmap") and d.get("flushes") == 0 and chain not in recorded:
+            continue  # nothing was ever written to this file except the initial fill
         if use_memmap:
             if not d.get("is_memmap"):
                 v.append(violation("storage-kind", f"{prop} storage-kind", f"{name} is not memory-mapped although memmap storage is in force"))
